@@ -268,6 +268,8 @@ Do(S, res) == IF S.r # "run" THEN S
               ELSE [S EXCEPT !.r = "err", !.t = S.t \cup res.t]
 
 FileIdx(c, x) == [t |-> "f", c |-> c, x |-> x, to |-> <<>>]
+GIdx  == [t |-> "g", c |-> "", x |-> FALSE, to |-> <<>>]     \* gitlink recorded as such (build_index_from_tree)
+GdIdx == [t |-> "gd", c |-> "", x |-> FALSE, to |-> <<>>]    \* gitlink recorded with the mode of the directory
 LinkIdx(to)   == [t |-> "l", c |-> "", x |-> FALSE, to |-> to]
 IdxPut(I, p, v) == [q \in DOMAIN I \cup {p} |-> IF q = p THEN v ELSE I[q]]
 IdxDel(I, p) == [q \in DOMAIN I \ {p} |-> I[q]]
@@ -317,8 +319,7 @@ BuildEntry(S, ent, pr) ==
                    ELSE IF ent.k.t = "g" THEN (IF IsDirP(S1.F, ent.p) THEN S1 ELSE Do(S1, Mkdir(S1.F, ent.p)))
                    ELSE BuildFile(S1, ent.k, ent.p)
          IN IF S2.r # "run" THEN S2
-            ELSE [S2 EXCEPT !.I = IdxPut(S2.I, ent.p, IF ent.k.t = "g" THEN [t |-> "g", c |-> "", x |-> FALSE, to |-> <<>>]
-                                                          ELSE IdxFromFs(S2.F, ent.p, ent.k))]
+            ELSE [S2 EXCEPT !.I = IdxPut(S2.I, ent.p, IF ent.k.t = "g" THEN GIdx ELSE IdxFromFs(S2.F, ent.p, ent.k))]
 
 RECURSIVE BuildAll(_, _, _)
 BuildAll(S, ents, pr) == IF S.r # "run" \/ ents = <<>> THEN S ELSE BuildAll(BuildEntry(S, Head(ents), pr), Tail(ents), pr)
@@ -376,7 +377,7 @@ TransSub(S, cs, st) ==
         S3 == IF S2.r = "run" /\ ~Exists(S2.F, Append(cs, ".git"))
               THEN Do(S2, WriteFile(S2.F, Append(cs, ".git"), "M")) ELSE S2
     IN IF S3.r # "run" THEN S3
-       ELSE [S3 EXCEPT !.I = IdxPut(S3.I, cs, [t |-> "g", c |-> "", x |-> FALSE, to |-> <<>>])]
+       ELSE [S3 EXCEPT !.I = IdxPut(S3.I, cs, GdIdx)]       \* index_entry_from_stat of a directory
 
 ApplyChange(S, ch, pr) ==
     IF S.r # "run" THEN S
@@ -438,8 +439,7 @@ StashEntry(S, ent, pr) ==
                    ELSE BuildFile(S1, ent.k, ent.p)
          IN IF S2.r # "run" THEN S2
             ELSE IF ent.p \in DOMAIN S2.I THEN S2       \* an entry that is already staged keeps its blob
-            ELSE [S2 EXCEPT !.I = IdxPut(S2.I, ent.p, IF ent.k.t = "g" THEN [t |-> "g", c |-> "", x |-> FALSE, to |-> <<>>]
-                                                          ELSE IdxFromFs(S2.F, ent.p, ent.k))]
+            ELSE [S2 EXCEPT !.I = IdxPut(S2.I, ent.p, IF ent.k.t = "g" THEN GdIdx ELSE IdxFromFs(S2.F, ent.p, ent.k))]
 RECURSIVE StashAll(_, _, _)
 StashAll(S, ents, pr) == IF S.r # "run" \/ ents = <<>> THEN S ELSE StashAll(StashEntry(S, Head(ents), pr), Tail(ents), pr)
 StashPop(F, I, T, pr) == Done(StashAll(St(F, I), FlatSeq(T), pr))
@@ -484,8 +484,10 @@ Results(op, T) ==
             \cup (IF op = "CO" /\ hasHead          \* local modifications: refused before anything is touched
                   THEN {Res(Err(St(fs, idx)), idx, head, hasHead)} ELSE {})
       [] op = "RH" ->
-            LET S == UpdateWorkingTree(fs, idx, TreeChanges(Nest(idx), T, TRUE), prot) IN
-            {Res(S, IF S.r = "ok" THEN S.I ELSE idx, T, TRUE)}
+            IF \E p \in DOMAIN idx : idx[p].t = "gd"
+            THEN {Res(Err(St(fs, idx)), idx, T, TRUE)}     \* the index names a tree that does not exist: KeyError before anything is touched
+            ELSE LET S == UpdateWorkingTree(fs, idx, TreeChanges(Nest(idx), T, TRUE), prot) IN
+                 {Res(S, IF S.r = "ok" THEN S.I ELSE idx, T, TRUE)}
       [] op = "ST" ->
             LET S == StashPop(fs, idx, T, prot) IN {Res(S, IF S.r = "ok" THEN S.I ELSE idx, head, hasHead)}
       [] op = "AP" ->
@@ -564,6 +566,9 @@ EntsMid == {E(<<"d">>, k) : k \in {FB, Lod, Lgit, Lcfg, DA, DB, DD, DLe}} \cup {
            \cup {E(<<"git~1">>, FA), E(<<"..", "of">>, FA)}
 TreesMid == {T \in TreesOver(EntsMid, 2) : Cardinality(T) = 2 => \E e \in T : e.n \in {<<"git~1">>}}
             \cup {{E(<<"a">>, FA), E(<<"d">>, DB)}, {E(<<"a">>, Ld), E(<<"d">>, DB)}}
+\* gitlinks: three operations
+EntsGl == {E(<<"d">>, k) : k \in {GK, FB, Lod, DA, DK({E(<<"x">>, GK)})}} \cup {E(<<"git~1">>, FA)}
+TreesGl == TreesOver(EntsGl, 1)
 \* small: three operations
 EntsSmall == {E(<<"d">>, k) : k \in {FB, Lod, Lof, Lgit, Lcfg, La, DA, DB, DC, DD, DLe}} \cup {E(<<"a">>, k) : k \in {DA}}
              \cup {E(<<"git~1">>, FA)}
